@@ -1,6 +1,6 @@
 (* C17 — Textual name API: validation, display and suffix algebra. Strings are their UTF-8 bytes.
    Property theorems only. *)
-Require Import SD.Base SD.Name SD.TextApi SD.TextApiProofs.
+Require Import SD.Base SD.Name SD.TextApi SD.TextApiProofs SD.Lossy SD.LossyProofs.
 
 (* Name::new succeeds exactly when every dot-separated non-empty label meets the grammar (label_ok: 1..63 characters,
    first a letter / digit / underscore, then letters / digits / hyphens / underscores, last a letter or digit) and the
@@ -20,6 +20,11 @@ Print Assumptions C17_pieces.
 Theorem C17_display_recreate : forall s ls, name_new s = Ok ls -> name_new (join_dots ls) = Ok ls.
 Proof. exact name_display_recreate. Qed.
 Print Assumptions C17_display_recreate.
+(* the same through the real Display (lossy rendering of each label, Lossy.v): on a name made from text nothing is replaced *)
+Theorem C17_display_is_text : forall s ls, name_new s = Ok ls -> display_name ls = join_dots ls /\ name_new (display_name ls) = Ok ls.
+Proof. exact display_of_new. Qed.
+Check C17_display_is_text : forall s ls, name_new s = Ok ls -> display_name ls = join_dots ls /\ name_new (display_name ls) = Ok ls.
+Print Assumptions C17_display_is_text.
 
 (* subdomain: strictly longer and ending with the other's labels *)
 Theorem C17_subdomain : forall a b, is_subdomain_of a b = true <-> exists pre, pre <> [] /\ a = pre ++ b.
